@@ -11,7 +11,53 @@ func init() {
 	Register("C03", checkC03)
 	Register("C06", checkC06)
 	Register("C07", checkC07)
+	Register("C05", checkC05)
 }
+
+// withRefTables adds the reference LR(1) tables of g to the target.
+func withRefTables(t *Target, g *SynGrammar) *RefLR {
+	r := BuildRefLR(g)
+	dir := filepath.Join(t.ModDir, "_verifdata")
+	os.MkdirAll(dir, 0o755)
+	f := filepath.Join(dir, "ref_"+g.Name+".go")
+	os.WriteFile(f, []byte(r.HarnessTables()), 0o644)
+	t.Harness = append(t.Harness, f)
+	return r
+}
+
+func checkC05(c *Ctx) {
+	maxN := 5
+	if !c.Quick() {
+		maxN = 8
+	}
+	var jobs []Job
+	for _, g := range ConflictCorpus {
+		ga := g.WithRecordingActions()
+		t, err := c.parserTarget(ga, true, append(parserHarness, "genparser/c05.go")...)
+		if err != nil {
+			c.Inconclusive = append(c.Inconclusive, err.Error())
+			continue
+		}
+		r := withRefTables(t, g)
+		if !r.Conflict {
+			c.Inconclusive = append(c.Inconclusive, "corpus grammar "+g.Name+" has no conflict in the reference automaton")
+		}
+		for n := 0; n <= maxN; n++ {
+			jobs = append(jobs, Job{
+				Name:           fmt.Sprintf("lockstep %s N=%d", g.Name, n),
+				Target:         t,
+				Run:            SymRun{Harness: "VerifC05Lockstep", Params: map[string]int{"N": n, "STEPS": 8*(n+1) + 8}, LoopBound: 8*(n+1) + 16, ForkFuncs: []string{"Parse", "VerifC05Lockstep", "verifRefRun"}},
+				Bounds:         fmt.Sprintf("grammar %s generated with -a, every sequence of %d terminal tokens", g.Name, n),
+				RequiredCovers: []string{"end"},
+			})
+		}
+	}
+	c.kernelC05(&jobs)
+	c.BoundsText = append(c.BoundsText, fmt.Sprintf("pipeline: conflicting corpus grammars through gocc -a; all token sequences of length 0..%d; lock-step with /verif's own canonical LR(1) automaton resolved by the stated rule: same verdict and same reduction sequence", maxN))
+	c.RunJobs(filterJobs(jobs), 4)
+}
+
+func (c *Ctx) kernelC05(jobs *[]Job) { *jobs = append(*jobs, actionKernelJobs(c)...) }
 
 func checkC07(c *Ctx) {
 	maxN := 3
